@@ -4,8 +4,8 @@
    ISCSIDevice.execute (hand model below; the status handling is Model/Exec.v) -> target (Spec/Target.v).
    Tied to the code by the stack correspondence (tools/corr/stack_impl.py). No proofs in this file. *)
 From Coq Require Import String.
-From PS Require Import Base.Bytes Base.Result Model.Converter Model.Command Model.Ctor Model.InitCdb Model.Facade.
-From PS Require Import Gen.Tables Gen.Opcodes Gen.Ctors Gen.FacadeTbl Spec.Target.
+From PS Require Import Base.Bytes Base.Result Model.Converter Model.Command Model.Ctor Model.InitCdb Model.Facade Model.Exec Model.Enum Model.Device Model.Xfer.
+From PS Require Import Gen.Tables Gen.Opcodes Gen.Ctors Gen.FacadeTbl Gen.Misc Spec.Target.
 Open Scope string_scope.
 Open Scope N_scope.
 
@@ -92,17 +92,24 @@ Inductive transport := SGIO | ISCSI.
 Definition cval_bytes (v : cval) : option bytes :=
   match v with CBytes b => Some b | CZeros n => Some (zeros (N.to_nat n)) | _ => None end.
 
-(* what the binding is handed: CDB, data-out bytes, and how many data-in bytes can be received.
-   SG_IO: sgio.execute(file, cdb, dataout, datain) — both buffers as they are.
-   iSCSI: direction and transfer length are derived from the buffer lengths, data-out taking precedence
-   (iscsi_device.py:89-97); with direction WRITE nothing is received. *)
+(* what the target is handed: CDB, data-out bytes, and how many data-in bytes can be received.
+   SG_IO: sgio.execute(file, cdb, dataout, datain) — both buffers as they are (argument list REGENERATED: sgio_execute_args).
+   iSCSI: direction and expected transfer length come from the REGENERATED set-up of ISCSIDevice.execute
+   (iscsi_xfer_prog); the binding sends data-out only for direction WRITE and receives data-in only for direction READ,
+   in both cases no more than the expected transfer length. *)
 Definition wire (tr : transport) (c : cmd) : option (bytes * bytes * nat) :=
   match cdb c, cval_bytes (dataout c), cval_bytes (datain c) with
   | Some b, Some o, Some i =>
-      match tr, o with
-      | SGIO, _ => Some (b, o, length i)
-      | ISCSI, [] => Some (b, [], length i)
-      | ISCSI, _ :: _ => Some (b, o, 0%nat)
+      match tr with
+      | SGIO => if sgio_args_ok then Some (b, o, length i) else None
+      | ISCSI =>
+          match iscsi_xfer (N.of_nat (length o)) (N.of_nat (length i)) with
+          | Some (d, n) =>
+              if String.eqb d "SCSI_XFER_WRITE" then Some (b, firstn (N.to_nat n) o, 0%nat)
+              else if String.eqb d "SCSI_XFER_READ" then Some (b, [], Nat.min (N.to_nat n) (length i))
+              else Some (b, [], 0%nat)
+          | None => None
+          end
       end
   | _, _, _ => None
   end.
